@@ -124,6 +124,24 @@ Fixpoint distinct_keys (l : list (bytes * bytes)) : bool :=
   | kv :: r => negb (existsb (fun kv' => bytes_eqb (fst kv) (fst kv')) r) && distinct_keys r
   end.
 
+(** the last path segment of a key, and the number a digit string spells (independent of [dec]) *)
+Fixpoint take_plain (s : bytes) : bytes :=
+  match s with
+  | [] => []
+  | c :: r => if byte_eqb c slash then [] else c :: take_plain r
+  end.
+Definition last_seg (k : bytes) : bytes := rev (take_plain (rev k)).
+Fixpoint dval_rev (l : bytes) : N :=
+  match l with
+  | [] => 0
+  | c :: r => (bN c - 48) + 10 * dval_rev r
+  end.
+Definition dval (s : bytes) : N := dval_rev (rev s).
+(** a height-index entry for height [n] and hash [h]: key ends in the decimal digits of [n], value is the raw hash *)
+Definition is_height_entry (n : N) (h : bytes) (kv : bytes * bytes) : bool :=
+  let seg := last_seg (fst kv) in
+  negb (bytes_eqb seg []) && forallb is_dec_digit seg && (dval seg =? n) && bytes_eqb (snd kv) h.
+
 Definition is_plain (c : byte) : bool :=
   let n := bN c in
   ((48 <=? n) && (n <=? 57)) || ((65 <=? n) && (n <=? 90)) || ((97 <=? n) && (n <=? 122)).
@@ -146,8 +164,10 @@ Definition okKeys (c : kcase) : bool :=
     (if forallb is_plain s && negb (bytes_eqb s []) then bytes_eqb k (slash :: s) else true)
   | KStore prefix h n bin t log o =>
     if hash_safe h && kh_decodes bin then
-      (* outside the collision region: four different keys, and the header survives the restart *)
-      (length log =? 4)%nat && distinct_keys log && o_by_hash o && (o_by_height o || (n =? 0)) &&
+      (* outside the collision region: four different keys, one of them the decimal height key holding the raw
+         hash, and the header survives the restart *)
+      (length log =? 4)%nat && distinct_keys log && existsb (is_height_entry n h) log &&
+      o_by_hash o && (o_by_height o || (n =? 0)) &&
       match t with
       | TNone => negb (o_start_err o) && option_eqb bytes_eqb (o_head o) (Some h) && o_kept o
       | TDelete => negb (o_start_err o) && negb (is_some (o_head o)) && negb (o_kept o)
